@@ -5,6 +5,7 @@ pub mod panics;
 pub mod par;
 pub mod report;
 pub mod threads;
+pub mod watch;
 
 pub use chooser::{choose, choose_free};
 
